@@ -74,7 +74,7 @@ def _reject_job(args):
     from vsg import apply_rules
 
     path, seed = args
-    rng = random.Random("c19/%s/%s" % (path, seed))
+    rng = random.Random("c19/%s/%s" % (common.rel(path), seed))
     text, how = corrupt(gen_inputs.read_text(path), rng)
     d = tempfile.mkdtemp(prefix="vsgverif-c19-")
     fn = os.path.join(d, "f.vhd")
